@@ -320,9 +320,14 @@ def unlyb (t : ITy) (b : Bytes) : Except IErr IVal :=
     if b.length != t.size then .error .LybSize
     else .ok { addr := b, zone := none, plen := 0, text := none }
 
+/-- `%zone` -/
+def zoneSuffix : Option Bytes → Bytes
+  | some z => 37 :: z
+  | none => []
+
 /-- the text `print` generates when `_canonical` is not set: `inet_ntop` + `%zone` / `/len` -/
 def genCanon (t : ITy) (v : IVal) : Bytes :=
-  ntop t v.addr ++ (if t.pfx then 47 :: dec8 v.plen else match v.zone with | some z => 37 :: z | none => [])
+  ntop t v.addr ++ (if t.pfx then 47 :: dec8 v.plen else zoneSuffix v.zone)
 
 /-- the print callback, `LY_VALUE_CANON` -/
 def canon (t : ITy) (v : IVal) : Bytes := v.text.getD (genCanon t v)
@@ -334,17 +339,19 @@ def lyb (t : ITy) (v : IVal) : Bytes :=
 /-- the compare callback: `true` = `LY_SUCCESS` -/
 def cmpEq (_t : ITy) (a b : IVal) : Bool := a.addr == b.addr && a.zone == b.zone && a.plen == b.plen
 
+/-- the order of the zones: no zone (NULL) first, then `strcmp` -/
+def zoneOrd : Option Bytes → Option Bytes → Int
+  | none, some _ => -1
+  | some _, none => 1
+  | some x, some y => strcmp x y
+  | none, none => 0
+
 /-- the sort callback -/
 def sort (t : ITy) (a b : IVal) : Int :=
   if t.pfx then memcmp (a.addr ++ [UInt8.ofNat a.plen]) (b.addr ++ [UInt8.ofNat b.plen])
   else
     let c := memcmp a.addr b.addr
-    if c != 0 then c
-    else match a.zone, b.zone with
-      | none, some _ => -1
-      | some _, none => 1
-      | some x, some y => strcmp x y
-      | none, none => 0
+    if c != 0 then c else zoneOrd a.zone b.zone
 
 /-! ## the six typedefs -/
 
